@@ -71,6 +71,17 @@ PROPS = {
         required="faithful",
         nontrivial="value with >= 3 nodes and an entity in a converted position, or a storage case",
     ),
+    "C11": dict(
+        domain="dispatch", module="Props.C11",
+        theorems=["C11_stages_conflict_free", "C11_stages_respect_deps", "C11_staged_exactly_once",
+                  "C11_staged_ids_distinct", "C11_group_size_bounded",
+                  "C11_builder_panics_only_on_unknown_dependency", "C11_run_exactly_once",
+                  "C11_dependencies_complete_first", "C11_no_conflicting_overlap", "C11_borrow_never_refused",
+                  "C11_all_steps_safe", "C11_borrow_never_refused_fine", "C11_decl_matches_fetch", "C11_decl_matches_fetch_tuple",
+                  "C11_fetch_then_probe", "C11_fetch_order_irrelevant", "C11_handles_self_ok"],
+        required="faithful",
+        nontrivial="the real builder's tree has a stage with two groups and a forced sequencing; really dispatched",
+    ),
 }
 
 # ------------------------------------------------------------------ known findings
@@ -510,6 +521,9 @@ def run_check(pid, tier, seed):
     if dom == "derive":
         from . import derive_check
         return derive_check.check_derive(pid, tier, seed)
+    if dom == "dispatch":
+        from . import dispatch_check
+        return dispatch_check.check_dispatch(pid, tier, seed)
     raise SystemExit("unknown domain")
 
 
@@ -519,6 +533,9 @@ def replay(path):
     if obj.get("domain") == "derive":
         from . import derive_check
         return derive_check.replay(obj)
+    if obj.get("domain") == "dispatch":
+        from . import dispatch_check
+        return dispatch_check.replay(obj, path)
     if "encoded" not in obj:
         print(json.dumps(obj, indent=1))
         return 1
